@@ -28,6 +28,7 @@ struct Shared {
     decisions: Mutex<Vec<char>>,         // per accepted connection, in accept order
     accepted: Mutex<usize>,
     by_port: Mutex<HashMap<u16, usize>>, // peer port -> connection index
+    by_fd: Mutex<HashMap<i32, usize>>,   // accepted descriptor -> connection index (a reset socket has no peer address any more)
     logs: Mutex<Vec<ConnLog>>,
 }
 
@@ -104,6 +105,7 @@ fn build(port: u16, threads: usize, sh: Arc<Shared>, slow_teardown: bool) -> Ser
                 i
             };
             s1.by_port.lock().unwrap().insert(peer.port(), idx);
+            s1.by_fd.lock().unwrap().insert(stream.as_raw_fd(), idx);
             {
                 let mut logs = s1.logs.lock().unwrap();
                 while logs.len() <= idx {
@@ -134,12 +136,14 @@ fn build(port: u16, threads: usize, sh: Arc<Shared>, slow_teardown: bool) -> Ser
     });
     let s3 = Arc::clone(&sh);
     b.connection_teardown_hook(move |stream, result| {
-        if let Ok(peer) = stream.peer_addr() {
-            if let Some(i) = s3.by_port.lock().unwrap().get(&peer.port()) {
-                let mut logs = s3.logs.lock().unwrap();
-                logs[*i].teardown += 1;
-                logs[*i].result = if result.is_ok() { 'o' } else { 'e' };
-            }
+        let idx = match stream.peer_addr() {
+            Ok(peer) => s3.by_port.lock().unwrap().get(&peer.port()).copied(),
+            Err(_) => s3.by_fd.lock().unwrap().get(&stream.as_raw_fd()).copied(),
+        };
+        if let Some(i) = idx {
+            let mut logs = s3.logs.lock().unwrap();
+            logs[i].teardown += 1;
+            logs[i].result = if result.is_ok() { 'o' } else { 'e' };
         }
         if slow_teardown {
             // a hook that closes the connection first and then does slow work (the descriptor number is free meanwhile)
@@ -170,6 +174,7 @@ pub fn serve(arg: &str) -> String {
         decisions: Mutex::new(conns.iter().map(|c| c.0).collect()),
         accepted: Mutex::new(0),
         by_port: Mutex::new(HashMap::new()),
+        by_fd: Mutex::new(HashMap::new()),
         logs: Mutex::new(Vec::new()),
     });
     let port = free_port();
@@ -186,8 +191,20 @@ pub fn serve(arg: &str) -> String {
     });
     // wait until the port accepts
     let t0 = Instant::now();
-    let mut transcripts: Vec<String> = Vec::new();
-    for (ci, (_d, script)) in conns.iter().enumerate() {
+    let mut transcripts: Vec<String> = vec![String::new(); conns.len()];
+    // a script may contain one `|`: the steps after it run after all other connections have finished their scripts
+    // (the connection stays open meanwhile)
+    let mut deferred: Vec<(usize, TcpStream, Vec<u8>, Vec<String>, String)> = Vec::new();
+    for (ci, (d_, script)) in conns.iter().enumerate() {
+        if *d_ == 'S' {
+            // deferred script parts run before accepting is stopped (a stop abandons open connections in epoll mode: K16)
+            for (cj, mut client, mut pending, mut out, rest) in deferred.drain(..) {
+                run_steps(&mut client, &rest, &mut pending, &mut out);
+                drop(client);
+                transcripts[cj] = if out.is_empty() { "-".into() } else { out.join(",") };
+                std::thread::sleep(Duration::from_millis(15));
+            }
+        }
         let mut client = loop {
             match TcpStream::connect(("127.0.0.1", port)) {
                 Ok(c) => break Some(c),
@@ -196,10 +213,60 @@ pub fn serve(arg: &str) -> String {
             }
         };
         let mut out: Vec<String> = Vec::new();
+        let (now, later) = match script.split_once(",|,") {
+            Some((a, b)) => (a, Some(b)),
+            None => (*script, None),
+        };
         if let Some(client) = client.as_mut() {
             client.set_nodelay(true).ok();
             let mut pending = Vec::new();
-            for step in script.split(',') {
+            run_steps(client, now, &mut pending, &mut out);
+            if let Some(rest) = later {
+                deferred.push((ci, client.try_clone().unwrap(), pending, out, rest.to_string()));
+                // keep `client` alive through the clone; the original is dropped below without closing the connection
+                continue;
+            }
+        } else {
+            out.push("NOCONN".into());
+        }
+        drop(client);
+        transcripts[ci] = if out.is_empty() { "-".into() } else { out.join(",") };
+        // let the server observe the close before the next connection
+        std::thread::sleep(Duration::from_millis(if slow_teardown { 20 } else { 15 }));
+    }
+    // the stop connection (last in the plan) must not be overtaken: deferred parts run before it was sent only if the plan
+    // puts them there; here they run after every other script, which is what the plans that use `|` ask for
+    for (ci, mut client, mut pending, mut out, rest) in deferred {
+        run_steps(&mut client, &rest, &mut pending, &mut out);
+        drop(client);
+        transcripts[ci] = if out.is_empty() { "-".into() } else { out.join(",") };
+        std::thread::sleep(Duration::from_millis(15));
+    }
+    let returned = rx.recv_timeout(Duration::from_millis(if conns.iter().any(|c| c.0 == 'S') { 2500 } else { 50 })).is_ok();
+    // teardown hooks of the last connections may still be running (serve_threaded does not join its threads): wait until
+    // every proceeded connection has been torn down, or a deadline
+    let want_td = conns.iter().filter(|c| c.0 == 'P').count() as u32;
+    let tw = Instant::now();
+    while tw.elapsed() < Duration::from_millis(1500) {
+        let got: u32 = sh.logs.lock().unwrap().iter().map(|l| l.teardown.min(1)).sum();
+        if got >= want_td { break; }
+        std::thread::sleep(Duration::from_millis(2));
+    }
+    std::thread::sleep(Duration::from_millis(5));
+    let logs = sh.logs.lock().unwrap().clone();
+    let mut hooks = Vec::new();
+    for i in 0..conns.len() {
+        match logs.get(i) {
+            Some(l) => hooks.push(format!("s{}p{}t{}{}", l.setup, l.pre, l.teardown, l.result)),
+            None => hooks.push("s0p0t0-".into()),
+        }
+    }
+    format!("V {} hooks={} returned={}", transcripts.join("/"), hooks.join("/"), returned as u8)
+}
+
+
+fn run_steps(client: &mut TcpStream, script: &str, pending: &mut Vec<u8>, out: &mut Vec<String>) {
+    for step in script.split(',') {
                 if let Some(h) = step.strip_prefix("s:") {
                     let _ = client.write_all(&unhex(h));
                     std::thread::sleep(Duration::from_millis(2));
@@ -209,7 +276,7 @@ pub fn serve(arg: &str) -> String {
                     let _ = client.shutdown(std::net::Shutdown::Write);
                     std::thread::sleep(Duration::from_millis(2));
                 } else if step == "r" {
-                    match read_response(client, &mut pending, Duration::from_millis(4000)) {
+                    match read_response(client, pending, Duration::from_millis(4000)) {
                         Ok(Some((st, close, body))) => out.push(format!("R{}:{}:{}", st, close as u8, hex(&body))),
                         Ok(None) => out.push("EOF".into()),
                         Err(e) => out.push(e.into()),
@@ -222,7 +289,7 @@ pub fn serve(arg: &str) -> String {
                 } else if step == "c" {
                     let _ = client.shutdown(std::net::Shutdown::Write);
                 } else if step == "e" {
-                    match read_response(client, &mut pending, Duration::from_millis(1200)) {
+                    match read_response(client, pending, Duration::from_millis(1200)) {
                         Ok(None) => out.push("EOF".into()),
                         Ok(Some((st, close, body))) => out.push(format!("R{}:{}:{}", st, close as u8, hex(&body))),
                         Err("HANG") => out.push("OPEN".into()),
@@ -231,26 +298,7 @@ pub fn serve(arg: &str) -> String {
                 } else if step == "w" {
                     std::thread::sleep(Duration::from_millis(60));
                 }
-            }
-        } else {
-            out.push("NOCONN".into());
-        }
-        drop(client);
-        transcripts.push(if out.is_empty() { "-".into() } else { out.join(",") });
-        // let the server observe the close before the next connection
-        std::thread::sleep(Duration::from_millis(if slow_teardown { 20 } else { 15 }));
     }
-    let returned = rx.recv_timeout(Duration::from_millis(if conns.iter().any(|c| c.0 == 'S') { 2500 } else { 50 })).is_ok();
-    std::thread::sleep(Duration::from_millis(20));
-    let logs = sh.logs.lock().unwrap().clone();
-    let mut hooks = Vec::new();
-    for i in 0..conns.len() {
-        match logs.get(i) {
-            Some(l) => hooks.push(format!("s{}p{}t{}{}", l.setup, l.pre, l.teardown, l.result)),
-            None => hooks.push("s0p0t0-".into()),
-        }
-    }
-    format!("V {} hooks={} returned={}", transcripts.join("/"), hooks.join("/"), returned as u8)
 }
 
 #[allow(dead_code)]
